@@ -98,6 +98,7 @@ func vfCapsShim(caps vfClientCaps) func(line []byte) []byte {
 type vfC14Episode struct {
 	ServerTmux bool         `json:"server_in_tmux"` // the server itself runs inside tmux normal mode
 	Tunnel     bool         `json:"tunnel"`
+	GiveUp     bool         `json:"client_gives_up_on_the_tunnel,omitempty"` // the relay's answer reaches the client after its grace period
 	Kind       string       `json:"kind"` // success, cancel, server-fail, client-fail, ctrl-c
 	Dir        string       `json:"dir"`
 	Caps       vfClientCaps `json:"caps"`
@@ -203,6 +204,15 @@ func (r *vfFilterRig) c14Episode(ep vfC14Episode, work string, n int) bool {
 			st.acceptOnTunnel(listener, id, port)
 		}
 		f.SetTunnelConnector(dial)
+		if ep.GiveUp {
+			f.SetTunnelConnector(func(p int) net.Conn {
+				conn := dial(p)
+				if conn == nil {
+					return nil
+				}
+				return &vfSlowAnswerConn{Conn: conn, delay: 1700 * time.Millisecond}
+			})
+		}
 		for _, rl := range r.relays {
 			rl.SetTunnelConnector(dial)
 		}
@@ -286,7 +296,7 @@ func (r *vfFilterRig) c14Episode(ep vfC14Episode, work string, n int) bool {
 			return false
 		}
 		want = in
-		if ep.Tunnel {
+		if ep.Tunnel && !ep.GiveUp {
 			c.Inconc("ACT seen in-band in a tunnel episode")
 		}
 		want.SupportBinary = false // no tunnel in this episode
@@ -400,6 +410,7 @@ func TestVF_C14(t *testing.T) {
 				if ep.Kind == "success" && (i+k)%3 == 0 {
 					ep.Tunnel = true
 					ep.Caps = vfClientCaps{} // the ACT travels inside the tunnel: the shim cannot reach it
+					ep.GiveUp = (i+k)%2 == 0 // ... unless the client gives up on the tunnel and goes on in-band
 				}
 				hist = append(hist, fmt.Sprintf("%s/%s/p%d/t%v", ep.Kind, ep.Dir, ep.Caps.Protocol, ep.Tunnel))
 				if !rig.c14Episode(ep, c.Dir, k) {
